@@ -10,7 +10,6 @@ import (
 
 	"rscheck/cfgq"
 	"rscheck/core"
-	"rscheck/lin"
 	"rscheck/pat"
 	"rscheck/rules/c10/flow"
 )
@@ -85,143 +84,224 @@ func (r *rs) r2() {
 	if !okAnch {
 		return
 	}
-	// decoder: switch over the value returned by decodeType
-	_, b := pat.Stmt("_t, _err = _d.decodeType()").Find(info, decodeResp.Decl.Body, nil)
-	var sw *ast.SwitchStmt
-	if b != nil {
-		core.Inspect(decodeResp.Decl.Body, func(m ast.Node) bool {
-			if s, ok := m.(*ast.SwitchStmt); ok && sw == nil && s.Tag != nil && pat.Same(info, s.Tag, b["_t"]) {
-				sw = s
-			}
-			return true
-		})
-	}
-	if sw == nil {
-		c.Undecidedf("R2.tags", "decode/switch", decodeResp.Decl.Pos(), "cannot find the switch over the result of decodeType in decodeResp")
+	// decoder: walk every path of decodeResp. The tag is the value returned by decodeType; per path the
+	// walker knows which constant it was found equal to (switch, if-chain, any order), which body decoder
+	// was called, and which &T{} the value returned was built from.
+	decodeType := r.method("Decoder", "decodeType")
+	if decodeType == nil {
 		return
 	}
+	tcalls := flow.FindCalls(decodeResp.Decl.Body, func(call *ast.CallExpr) bool { return core.CalleeFunc(info, call) == decodeType.Obj })
+	if len(tcalls) != 1 {
+		c.Undecidedf("R2.tags", "decode/switch", decodeResp.Decl.Pos(), "expected one call of decodeType in decodeResp, found %d", len(tcalls))
+		return
+	}
+	tagTok := fmt.Sprintf("call%p#0", tcalls[0])
 	type arm struct {
 		typ    string
 		callee *types.Func
 		pos    token.Pos
 	}
-	dec := map[int64]arm{}
-	var deflt *ast.CaseClause
-	for _, s := range sw.Body.List {
-		cc := s.(*ast.CaseClause)
-		if cc.List == nil {
-			deflt = cc
-			continue
-		}
-		a := arm{typ: r.builtType(cc), pos: cc.Pos()}
-		for _, call := range flow.FindCalls(cc, func(call *ast.CallExpr) bool { return true }) {
-			if f := core.CalleeFunc(info, call); f != nil && a.callee == nil && core.NamedTypeName(recvOf(f)) == "Decoder" {
-				a.callee = f
-			}
-		}
-		for _, e := range cc.List {
-			if v, ok := core.IntConst(info, e); ok {
-				dec[v] = a
-			} else {
-				c.Undecidedf("R2.tags", "decode/case", e.Pos(), "case label %s is not a constant", c.Src(e))
-			}
+	dec := map[int64][]arm{}
+	gd := cfgq.Of(c.Program, decodeResp)
+	depth := param(info, decodeResp, 0)
+	var fallback struct {
+		n, deep, opaque, knownTag int
+		pos                       token.Pos
+	}
+	dw := &flow.Sym{G: gd}
+	dw.Unlearned = func(e ast.Expr, st *flow.SState) {
+		if depth != nil && core.Mentions(info, e, depth) {
+			st.Marks["opaque-depth"] = flow.SVal{Kind: flow.SBool, B: true}
 		}
 	}
-	// encoder: type switch
-	var tsw *ast.TypeSwitchStmt
-	core.Inspect(encodeResp.Decl.Body, func(m ast.Node) bool {
-		if s, ok := m.(*ast.TypeSwitchStmt); ok && tsw == nil {
-			tsw = s
-		}
-		return true
-	})
-	if tsw == nil {
-		c.Undecidedf("R2.tags", "encode/switch", encodeResp.Decl.Pos(), "cannot find the type switch in encodeResp")
-		return
-	}
-	ge := cfgq.Of(c.Program, encodeResp)
-	type earm struct {
-		tag     int64
-		callee  *types.Func
-		ordered bool
-		pos     token.Pos
-	}
-	enc := map[string]earm{}
-	for _, s := range tsw.Body.List {
-		cc := s.(*ast.CaseClause)
-		if len(cc.List) != 1 {
-			continue
-		}
-		tn := core.NamedTypeName(info.TypeOf(cc.List[0]))
-		a := earm{tag: -1, pos: cc.Pos()}
-		var tagCall, bodyCall *ast.CallExpr
-		for _, call := range flow.FindCalls(cc, func(call *ast.CallExpr) bool { return true }) {
+	decByName := map[string]*types.Func{}
+	dw.Visit = func(m ast.Node, st *flow.SState) bool {
+		for _, call := range cfgq.ExecCalls(m) {
 			f := core.CalleeFunc(info, call)
-			if f == nil || core.NamedTypeName(recvOf(f)) != "encoder" {
+			if f == nil || core.NamedTypeName(recvOf(f)) != "Decoder" || f == decodeType.Obj {
 				continue
 			}
-			if f == encodeType.Obj && len(call.Args) == 1 && tagCall == nil {
-				if v, ok := core.IntConst(info, call.Args[0]); ok {
-					a.tag, tagCall = v, call
+			if f == inline.Obj {
+				fallback.n++
+				fallback.pos = call.Pos()
+				iv := st.IntervalOf(tagTok)
+				for _, t := range tagTable {
+					if iv.Lo <= int64(t.tag) && int64(t.tag) <= iv.Hi {
+						fallback.knownTag++
+					}
 				}
-			} else if bodyCall == nil {
-				a.callee, bodyCall = f, call
+				if depth != nil {
+					did := ast.NewIdent(depth.Name())
+					info.Uses[did] = depth
+					dv := dw.Eval(did, st)
+					if div := st.IntervalOf(dv.Tok); !(dv.Kind == flow.SInt && dv.K == 0) && !(dv.Tok != "" && div.Hi <= 0) {
+						if st.Marks["opaque-depth"].B {
+							fallback.opaque++
+						} else {
+							fallback.deep++
+						}
+					}
+				}
+				continue
 			}
+			decByName[f.Name()] = f
+			st.Marks["dec"] = flow.SVal{Tok: f.Name()}
 		}
-		if tagCall != nil && bodyCall != nil {
-			if p, ok := flow.PointOf(ge, bodyCall); ok {
-				a.ordered, _ = ge.Dominated(p, flow.CallOn(ge, func(call *ast.CallExpr) bool { return call == tagCall }))
-			}
-			// the payload is the matched value's field
-			if len(bodyCall.Args) != 1 || pat.Expr("_x.Value").Match(info, bodyCall.Args[0], nil) == nil {
-				a.callee = nil
-			}
+		ret, ok := m.(*ast.ReturnStmt)
+		if !ok {
+			return false
 		}
-		enc[tn] = a
+		iv := st.IntervalOf(tagTok)
+		mk, called := st.Marks["dec"]
+		if len(ret.Results) == 2 && iv.Lo == iv.Hi && called {
+			a := arm{callee: decByName[mk.Tok], pos: ret.Pos()}
+			if src, ok := dw.Eval(ret.Results[0], st).Src.(ast.Expr); ok && src != nil {
+				lit := ast.Unparen(src)
+				if u, isAddr := lit.(*ast.UnaryExpr); isAddr {
+					lit = ast.Unparen(u.X)
+				}
+				if cl, isLit := lit.(*ast.CompositeLit); isLit {
+					a.typ = core.NamedTypeName(info.TypeOf(cl))
+				}
+			}
+			dec[iv.Lo] = append(dec[iv.Lo], a)
+		}
+		return true
 	}
+	dw.Run(nil)
 	knownDec, knownEnc := map[*types.Func]bool{}, map[*types.Func]bool{}
 	for _, t := range tagTable {
 		knownDec[decM[t.dec].Obj], knownEnc[encM[t.enc].Obj] = true, true
 	}
-	for _, t := range tagTable {
-		d, okd := dec[int64(t.tag)]
-		if okd && (d.typ == "" || !knownDec[d.callee]) {
-			c.Undecidedf("R2.tags", "decode/"+t.typ, d.pos, "the arm for tag %q builds %q through %v: not one of the recognised body decoders", t.tag, d.typ, fname(d.callee))
-		} else {
-			c.Check("R2.tags", "decode/"+t.typ, d.pos, okd && d.typ == t.typ && d.callee == decM[t.dec].Obj,
-				fmt.Sprintf("tag %q must build &%s{} and fill it through %s (found: type %q, decoder %v): otherwise a value encoded as %s comes back as something else", t.tag, t.typ, t.dec, d.typ, fname(d.callee), t.typ))
+	// encoder: walk every path of encodeResp (helpers inlined). Per path the walker knows the dynamic
+	// type of the value (type-switch arms, also across two switches over the same operand), the constant
+	// passed to encodeType so far, and which body encoder is then called on the value's field.
+	ge := cfgq.Of(c.Program, encodeResp)
+	type earm struct {
+		tag     int64 // -1: no tag written before the payload, -2: a tag that is not a constant
+		callee  *types.Func
+		ordered bool
+		pos     token.Pos
+	}
+	enc := map[string][]earm{}
+	vague := 0 // payload calls whose value type could not be determined
+	ew := &flow.Sym{G: ge}
+	ew.Visit = func(m ast.Node, st *flow.SState) bool {
+		for _, call := range cfgq.ExecCalls(m) {
+			f := core.CalleeFunc(info, call)
+			if f == nil || core.NamedTypeName(recvOf(f)) != "encoder" {
+				for _, arg := range call.Args {
+					if sel, ok := ast.Unparen(arg).(*ast.SelectorExpr); ok && sel.Sel.Name == "Value" && scope.Lookup(core.NamedTypeName(info.TypeOf(sel.X))) != nil {
+						vague++ // the payload goes somewhere the rule does not know
+					}
+				}
+				continue
+			}
+			if f == encodeType.Obj && len(call.Args) == 1 {
+				if v := ew.Eval(call.Args[0], st); v.Kind == flow.SInt {
+					st.Marks["tag"] = v
+				} else {
+					st.Marks["tag"] = flow.SVal{Tok: "non-constant"}
+				}
+				continue
+			}
+			// a call that is handed the value's payload field
+			tn := ""
+			for _, arg := range call.Args {
+				if sel, ok := ast.Unparen(arg).(*ast.SelectorExpr); ok && sel.Sel.Name == "Value" {
+					tn = core.NamedTypeName(info.TypeOf(sel.X))
+				}
+			}
+			if tn == "" {
+				if knownEnc[f] {
+					vague++ // a body encoder called on something else than x.Value
+				}
+				continue
+			}
+			if !knownEnc[f] || len(call.Args) != 1 || scope.Lookup(tn) == nil {
+				vague++
+				continue
+			}
+			a := earm{tag: -1, callee: f, pos: call.Pos()}
+			if mk, has := st.Marks["tag"]; has {
+				a.tag, a.ordered = -2, true
+				if mk.Kind == flow.SInt {
+					a.tag = mk.K
+				}
+			}
+			enc[tn] = append(enc[tn], a)
 		}
-		e, oke := enc[t.typ]
-		if oke && (e.tag < 0 || !knownEnc[e.callee]) {
-			c.Undecidedf("R2.tags", "encode/"+t.typ, e.pos, "the arm for *%s (tag %d, encoder %v) is not of the recognised form encodeType(K); encode<T>(x.Value)", t.typ, e.tag, fname(e.callee))
-		} else {
-			c.Check("R2.tags", "encode/"+t.typ, e.pos, oke && e.tag == int64(t.tag) && e.callee == encM[t.enc].Obj && e.ordered,
-				fmt.Sprintf("*%s must be written as tag %q followed by %s(x.Value) (found: tag %q, encoder %v, tag-first=%v): otherwise the decoder reads the value back as another type", t.typ, t.tag, t.enc, rune(e.tag), fname(e.callee), e.ordered))
+		return false
+	}
+	ew.Run(nil)
+	for _, t := range tagTable {
+		darms := dec[int64(t.tag)]
+		switch {
+		case len(darms) == 0 && dw.Overflow:
+			c.Undecidedf("R2.tags", "decode/"+t.typ, decodeResp.Decl.Pos(), "cannot enumerate the paths of decodeResp")
+		case len(darms) == 0:
+			c.Check("R2.tags", "decode/"+t.typ, decodeResp.Decl.Pos(), false, fmt.Sprintf("no path of decodeResp decodes tag %q into &%s{} through %s: otherwise a value encoded as %s comes back as something else", t.tag, t.typ, t.dec, t.typ))
+		default:
+			good, vagueArm := true, false
+			var d arm
+			for _, a := range darms {
+				d = a
+				if a.typ == "" || !knownDec[a.callee] {
+					vagueArm = true
+				}
+				if a.typ != t.typ || a.callee != decM[t.dec].Obj {
+					good = false
+					break
+				}
+			}
+			if !good && vagueArm {
+				c.Undecidedf("R2.tags", "decode/"+t.typ, d.pos, "the arm for tag %q builds %q through %v: not one of the recognised body decoders", t.tag, d.typ, fname(d.callee))
+			} else {
+				c.Check("R2.tags", "decode/"+t.typ, d.pos, good,
+					fmt.Sprintf("tag %q must build &%s{} and fill it through %s (found: type %q, decoder %v): otherwise a value encoded as %s comes back as something else", t.tag, t.typ, t.dec, d.typ, fname(d.callee), t.typ))
+			}
+		}
+		arms := enc[t.typ]
+		switch {
+		case len(arms) == 0 && (vague > 0 || ew.Overflow):
+			c.Undecidedf("R2.tags", "encode/"+t.typ, encodeResp.Decl.Pos(), "cannot find how *%s is written: %d payload calls could not be attributed to a value type", t.typ, vague)
+		case len(arms) == 0:
+			c.Check("R2.tags", "encode/"+t.typ, encodeResp.Decl.Pos(), false, fmt.Sprintf("no path of encodeResp writes a *%s as tag %q followed by %s(x.Value)", t.typ, t.tag, t.enc))
+		default:
+			good, unknown := true, false
+			var e earm
+			for _, a := range arms {
+				e = a
+				if a.tag == -2 {
+					unknown = true
+				}
+				if a.tag != int64(t.tag) || a.callee != encM[t.enc].Obj || !a.ordered {
+					good = false
+					break
+				}
+			}
+			if !good && unknown {
+				c.Undecidedf("R2.tags", "encode/"+t.typ, e.pos, "the tag written for *%s is not a constant on some path", t.typ)
+			} else {
+				c.Check("R2.tags", "encode/"+t.typ, e.pos, good,
+					fmt.Sprintf("*%s must be written as tag %q followed by %s(x.Value) (found: tag %q, encoder %v, tag-first=%v): otherwise the decoder reads the value back as another type", t.typ, t.tag, t.enc, rune(e.tag), fname(e.callee), e.ordered))
+			}
 		}
 	}
-	// inline commands only at depth 0, and only for an unknown tag
-	gd := cfgq.Of(c.Program, decodeResp)
-	depth := param(info, decodeResp, 0)
-	calls := flow.FindCalls(decodeResp.Decl.Body, func(call *ast.CallExpr) bool { return core.CalleeFunc(info, call) == inline.Obj })
-	if len(calls) != 1 || depth == nil {
-		c.Undecidedf("R2.depth", "inline-fallback", decodeResp.Decl.Pos(), "expected exactly one call of decodeSingleLineBulkBytesArray in decodeResp, found %d", len(calls))
-	} else {
-		inDefault := deflt != nil && flow.Contains(deflt, calls[0])
-		p, found := flow.PointOf(gd, calls[0])
-		if !inDefault || !found {
-			c.Undecidedf("R2.depth", "inline-fallback", calls[0].Pos(), "the inline-command fallback is not in the default arm of the tag switch")
-		} else {
-			// depth is never negative (0 at the entry points, +k below), so depth <= 0 and depth < 1 say the same
-			did := ast.NewIdent(depth.Name())
-			info.Uses[did] = depth
-			dform := lin.Of(info, did)
-			r.guard("R2.depth", "inline-fallback", calls[0].Pos(), gd, p,
-				func(f cfgq.Fact) bool {
-					return flow.LinIs(info, f, dform, token.EQL, 0) || flow.LinIs(info, f, dform, token.LEQ, 0)
-				},
-				flow.Opaque(gd, func(f cfgq.Fact) bool { return flow.LinAbout(info, f, dform) }, depth),
-				"the inline-command parser must be reachable only at depth 0: an unknown type byte inside an array has to yield an error, not a value")
-		}
+	// inline commands only at depth 0 (and only for a byte that is none of the five tags)
+	detail := "the inline-command parser must be reachable only at depth 0: an unknown type byte inside an array has to yield an error, not a value"
+	switch {
+	case fallback.n == 0 || depth == nil:
+		c.Undecidedf("R2.depth", "inline-fallback", decodeResp.Decl.Pos(), "no path of decodeResp reaches decodeSingleLineBulkBytesArray")
+	case fallback.deep > 0:
+		c.Check("R2.depth", "inline-fallback", fallback.pos, false, detail)
+	case fallback.opaque > 0 || dw.Overflow:
+		c.Undecidedf("R2.depth", "inline-fallback", fallback.pos, "the depth is tested in a form that is not understood; required: %s", detail)
+	case fallback.knownTag > 0:
+		c.Undecidedf("R2.depth", "inline-fallback", fallback.pos, "the inline-command fallback is reachable for one of the five type bytes")
+	default:
+		c.Check("R2.depth", "inline-fallback", fallback.pos, true, detail)
 	}
 	// recursion passes depth+k, entry points pass 0
 	dparam := param(info, decodeArray, 0)
